@@ -529,6 +529,8 @@ pub fn c01(ctx: &mut Ctx) {
         // (C08 / C12 / C18 run the framing oracles over sizes up to the full bound)
         run(ctx, bytes::dense_size_space(ctx.tier.pick(600, 2304)), Mode::All, false);
         run(ctx, bytes::dense_total_space(ctx.tier.pick(1200, 2304)), Mode::All, false);
+        run(ctx, bytes::big_chain_space(), Mode::Giant, false);
+        run(ctx, bytes::count_x_length_space(), Mode::All, false);
     }
     // iterator call histories ("all accessor/iterator call sequences"): every iterator reachable from the base set
     // and from every well-tiled datagram of 1..=3 menu tiles is driven through every sequence of next / nth /
@@ -581,6 +583,40 @@ pub fn c01(ctx: &mut Ctx) {
             l.evals += 1;
             l.sample(|| format!("iterator histories on {}", hex_short(s)));
             super::common::all_iterator_histories(l, s, depth);
+        });
+        // NACK words whose entries reach or pass the top of the sequence-number space: PIDs 0xFFE0..=0xFFFF x masks
+        // (empty, each single bit, full, alternating), alone and followed by a second word, iterated to the end
+        ctx.run_space("nack-words-at-the-top-of-the-number-space", 32 * 20 * 2, |idx, l| {
+            use rtcp_types::prelude::*;
+            use rtcp_types::*;
+            l.evals += 1;
+            l.states += 1;
+            let pid = 0xFFE0u16 + (idx % 32) as u16;
+            let mask: u16 = match (idx / 32) % 20 {
+                0 => 0,
+                17 => 0xFFFF,
+                18 => 0xAAAA,
+                19 => 0x5555,
+                b => 1 << (b - 1),
+            };
+            let mut body = Vec::new();
+            body.extend_from_slice(&pid.to_be_bytes());
+            body.extend_from_slice(&mask.to_be_bytes());
+            if idx / 640 == 1 {
+                body.extend_from_slice(&[0x00, 0x03, 0x80, 0x01]);
+            }
+            let r = guard::catch(|| {
+                let direct = <Nack as FciParser>::parse(&body).map(|x| x.entries().take(40).count());
+                let mut pkt = vec![0x81, 205, 0, (2 + body.len() / 4) as u8, 0, 0, 0, 1, 0, 0, 0, 2];
+                pkt.extend_from_slice(&body);
+                let via = TransportFeedback::parse(&pkt).ok().and_then(|t| t.parse_fci::<Nack>().ok().map(|x| x.entries().take(40).count()));
+                (direct.ok(), via)
+            });
+            l.transitions += 2;
+            match r {
+                Err(pi) => l.subject_panic("Nack::entries", &pi, || hex_short(&body)),
+                Ok(_) => l.hit("accepted by at least one entry point"),
+            }
         });
         ctx.run_space("bare-fci-iterator-histories", 10 * 3, |idx, l| {
             use rtcp_types::prelude::*;
